@@ -85,8 +85,6 @@ impl<'a> PrettyPrinter<'a> {
 
     /// In math mode, we have `$fun(1, 2; 3, 4)$ == $fun(#(1, 2), #(3, 4))$`.
     pub(super) fn convert_array(&'a self, ctx: Context, array: Array<'a>) -> ArenaDoc<'a> {
-        let ctx = ctx.with_mode(Mode::CodeCont);
-
         // Whether the array has parens.
         // This is also used to determine whether we need to add a trailing comma.
         // Note that we should not strip trailing commas in math.
@@ -95,6 +93,12 @@ impl<'a> PrettyPrinter<'a> {
             .children()
             .next()
             .is_some_and(|child| child.kind() == SyntaxKind::LeftParen);
+        // A row of 2-D math args stays in math: its items are math, e.g. a nested `mat(a; b)`.
+        let ctx = if is_explicit {
+            ctx.with_mode(Mode::CodeCont)
+        } else {
+            ctx
+        };
         let ends_with_comma = !is_explicit
             && array
                 .to_untyped()
